@@ -116,7 +116,8 @@ func (r *runner) absorb(ev sched.Event) {
 	case "yield":
 		t.parked = true
 		switch ev.Point {
-		case "lock.entered":
+		case "lock.entered", "lock.prechecked":
+			// past the context pre-check the goroutine is still "waiting" for the machine
 			t.pc = fmt.Sprintf("wait:%d", k)
 		case "lock.giving-up":
 			t.pc = fmt.Sprintf("givingUp:%d", k)
@@ -203,10 +204,15 @@ func (r *runner) exec(st Step) string {
 		if e := r.await(st.T); e != "" {
 			return e
 		}
-	case "acquire", "giveUp":
-		if st.Act == "acquire" && th.cancelled {
-			return "" // the select's choice between two ready cases cannot be forced
+		if !th.cancelled {
+			// let it pass the context pre-check: a cancellation from now on races with the slot in the select
+			r.s.Resume(st.T)
+			th.parked = false
+			if e := r.await(st.T); e != "" {
+				return e
+			}
 		}
+	case "acquire", "giveUp":
 		r.s.Resume(st.T)
 		th.parked = false
 		if e := r.await(st.T); e != "" {
@@ -280,9 +286,22 @@ func Run(p Program) (lines []string, impl []string) {
 		if o == "" {
 			break
 		}
+		diverged := false
+		if (st.Act == "acquire" || st.Act == "giveUp") && strings.HasPrefix(o, "ok ") {
+			// with the context ended AND the slot free the select may take either case: record the
+			// step the implementation took (the machine allows both) and stop following the schedule
+			took := "acquire"
+			if strings.HasPrefix(r.th[st.T].pc, "givingUp") {
+				took = "giveUp"
+			}
+			if took != st.Act {
+				st.Act = took
+				diverged = true
+			}
+		}
 		lines = append(lines, st.Line())
 		impl = append(impl, o)
-		if !strings.HasPrefix(o, "ok ") {
+		if !strings.HasPrefix(o, "ok ") || diverged {
 			break
 		}
 	}
